@@ -18,7 +18,8 @@ func fixedSchema() SchemaSpec {
 			{Kind: "object", Name: "Beta", Ifaces: []string{"Node"}, Fields: []FieldSpec{id, x,
 				{Name: "y", Type: listOf(nonNull(named("Float")))},
 				{Name: "peer", Type: named("Thing")},
-				{Name: "grid", Type: nonNull(listOf(listOf(named("Boolean"))))}}},
+				{Name: "grid", Type: nonNull(listOf(listOf(named("Boolean"))))},
+				{Name: "cube", Type: nonNull(listOf(nonNull(listOf(nonNull(listOf(nonNull(named("Int"))))))))}}},
 			{Kind: "union", Name: "Thing", Members: []string{"Alpha", "Beta"}},
 			{Kind: "object", Name: "Query", Fields: []FieldSpec{
 				{Name: "a", Type: named("Alpha")},
@@ -46,6 +47,7 @@ func handPickedNamed() map[string]Case {
 		"F-20b-union-condition-inside-interface":       mk(q(f("i", f("__typename"), on("Thing", f("__typename"), on("Alpha", f("c")), on("Beta", f("y")))))),
 		"F-20c-aliased-typename":                       mk(q(f("u", fa("t", "__typename"), on("Alpha", f("x")), on("Beta", f("grid"))))),
 		"readme-node":                                  mk(q(f("n", f("__typename"), on("Alpha", f("c"), f("x")), f("id")))),
+		"deepest-describable-type": mk(q(f("u", f("__typename"), on("Beta", f("cube"), f("grid"))))),
 		"root-spread": mk(q(spread("F1"), f("s")),
 			Def{Kind: "frag", Name: "F1", Cond: "Query", Sels: []Sel{f("a", f("x"), f("next", f("c")))}}),
 		"nested-fragments-and-lists": mk(q(f("a", f("items", f("__typename"), f("id"), spread("NodeBits"), on("Beta", f("peer", f("__typename"), on("Node", f("x")))))), f("i", f("__typename"), spread("NodeBits"))),
